@@ -247,7 +247,7 @@ var vdBoundaryDates = [][3]int{
 // (With a symbolic date as well the solver does not decide the combined time and calendar
 // normalisation; symbolic dates are covered by VerifC33PlusDays.)
 //
-//symgo:harness prop=C33 tier=quick arith=int timeout=300 ttimeout=1700 qtimeout=60000 shards=4 tshards=8 bounds=5_concrete_boundary_dates_(thorough_27);any_time_of_day;one_of_hours/minutes/seconds/ms_offset_up_to_+-2_days'_worth_(thorough_+-4) outside=symbolic_date_together_with_time_offsets_(solver_unknown);several_offset_fields_at_once;larger_offsets
+//symgo:harness prop=C33 tier=quick arith=int timeout=300 ttimeout=1700 qtimeout=60000 shards=2 tshards=8 bounds=5_concrete_boundary_dates_(thorough_27);any_time_of_day;one_of_hours/minutes/seconds/ms_offset_up_to_+-2_days'_worth_(thorough_+-4) outside=symbolic_date_together_with_time_offsets_(solver_unknown);several_offset_fields_at_once;larger_offsets
 func VerifC33PlusTime() {
 	vdEnable()
 	nd := 5
@@ -299,7 +299,7 @@ func VerifC33PlusTime() {
 // is y2-y years, or 12*(y2-y)+(m2-m) months with m2 concrete); Gregorian normalisation: day d of
 // month (y2,m2) if that month has it, otherwise the overflow runs into the following month.
 //
-//symgo:harness prop=C33 tier=quick arith=int timeout=300 ttimeout=1700 qtimeout=60000 shards=4 tshards=8 bounds=source_and_target_year_any_of_400..2999;years_offset:_source_month_in_{1,2,3,12}_(thorough_all);months_offset_=_12*(y2-y)+1_from_every_source_month_(thorough:_to_any_target_month) outside=month_offsets_to_other_target_months_in_quick;years_0..399;several_offset_fields_at_once
+//symgo:harness prop=C33 tier=quick arith=int timeout=300 ttimeout=1700 qtimeout=60000 shards=2 tshards=8 bounds=source_and_target_year_any_of_400..2999;years_offset:_source_month_in_{1,2,3,12}_(thorough_all);months_offset_=_12*(y2-y)+1_from_every_source_month_(thorough:_to_any_target_month) outside=month_offsets_to_other_target_months_in_quick;years_0..399;several_offset_fields_at_once
 func VerifC33PlusYearsMonths() {
 	vdEnable()
 	y, m, d, h, mi, s, ms := vdSource()
